@@ -37,6 +37,8 @@ enum DealerSendTransaction {
 struct DealerSocketOutgoingProcessor {
   core_handle: usize,
   pending_queue: Arc<TokioMutex<VecDeque<FrameBatch>>>,
+  /// Messages parked in `pending_queue` or being routed by this processor right now.
+  pending_backlog: Arc<std::sync::atomic::AtomicUsize>,
   outgoing_orchestrator: Arc<OutgoingMessageOrchestrator>,
   queue_activity_notifier: Arc<Notify>,
   peer_availability_notifier: Arc<Notify>,
@@ -85,6 +87,7 @@ impl DealerSocketOutgoingProcessor {
 
         match self.outgoing_orchestrator.route_message(zmtp_frames_for_logical_message, false).await {
           Ok(()) => {
+            self.pending_backlog.fetch_sub(1, std::sync::atomic::Ordering::AcqRel);
             // A notification is a single stored permit, however many messages were queued meanwhile:
             // keep going until the queue is empty instead of waiting for some later event.
             if !self.pending_queue.lock().await.is_empty() {
@@ -123,6 +126,9 @@ pub(crate) struct DealerSocket {
   frame_recv_buffer: ParkingMutex<Option<VecDeque<Msg>>>,
   pipe_read_to_endpoint_uri: ParkingLotRwLock<HashMap<usize, String>>,
   pending_outgoing_queue: Arc<TokioMutex<VecDeque<FrameBatch>>>,
+  /// Messages accepted by send() that have not been routed yet (queued, or in the processor's hands).
+  /// While it is non-zero a new message must queue behind them instead of being routed directly.
+  pending_backlog: Arc<std::sync::atomic::AtomicUsize>,
   outgoing_queue_activity_notifier: Arc<Notify>,
   peer_availability_notifier: Arc<Notify>,
   processor_task_handle: TokioMutex<Option<JoinHandle<()>>>,
@@ -138,10 +144,12 @@ impl DealerSocket {
     let queue_notifier_arc = Arc::new(Notify::new());
     let peer_notifier_arc = Arc::new(Notify::new());
     let stop_signal_arc = Arc::new(Notify::new());
+    let backlog_arc = Arc::new(std::sync::atomic::AtomicUsize::new(0));
 
     let processor = DealerSocketOutgoingProcessor {
       core_handle: core.handle,
       pending_queue: pending_queue_arc.clone(),
+      pending_backlog: backlog_arc.clone(),
       outgoing_orchestrator: orchestrator_arc.clone(),
       queue_activity_notifier: queue_notifier_arc.clone(),
       peer_availability_notifier: peer_notifier_arc.clone(),
@@ -158,6 +166,7 @@ impl DealerSocket {
       frame_recv_buffer: ParkingMutex::new(None),
       pipe_read_to_endpoint_uri: ParkingLotRwLock::new(HashMap::new()),
       pending_outgoing_queue: pending_queue_arc,
+      pending_backlog: backlog_arc,
       outgoing_queue_activity_notifier: queue_notifier_arc,
       peer_availability_notifier: peer_notifier_arc,
       processor_task_handle: TokioMutex::new(Some(processor_jh)),
@@ -380,6 +389,10 @@ impl ISocket for DealerSocket {
       return Err((msg, ZmqError::ResourceLimitReached));
     }
     drop(guard);
+    // Older messages are still queued: the async path queues this one behind them.
+    if self.pending_backlog.load(std::sync::atomic::Ordering::Acquire) > 0 {
+      return Err((msg, ZmqError::ResourceLimitReached));
+    }
     let mut fb = FrameBatch::new();
     fb.push(msg);
     let wire_frames = self.prepare_full_multipart_send_sequence(fb);
@@ -612,6 +625,11 @@ impl DealerSocket {
       )
     };
 
+    // Messages still waiting in the pending queue are older than this one: queue behind them.
+    if self.pending_backlog.load(std::sync::atomic::Ordering::Acquire) > 0 {
+      return self.queue_message_or_error(zmtp_wire_frames, global_sndhwm, global_sndtimeo).await;
+    }
+
     match self.outgoing_orchestrator.route_message(zmtp_wire_frames, false).await {
       Ok(()) => Ok(()),
       Err((returned, _)) => {
@@ -641,6 +659,7 @@ impl DealerSocket {
         let mut queue_guard = self.pending_outgoing_queue.lock().await;
         if queue_guard.len() < global_sndhwm {
           queue_guard.push_back(full_message_parts);
+          self.pending_backlog.fetch_add(1, std::sync::atomic::Ordering::AcqRel);
           self.outgoing_queue_activity_notifier.notify_one();
           return Ok(());
         }
